@@ -119,31 +119,31 @@ static int g_stop[VP_N + 1];           /* answer of should_stop_before per entry
 static int g_stop_calls = 0;
 static int g_base_calls = 0;
 static uint8_t g_base_last = 0;
-/* what was added, per input position */
+/* what was added, per input position (indices are concrete inside the loop) */
 static int rec_kept[VP_N + 1];
-static int rec_slot[VP_N + 1];
+static int rec_slot[VP_N + 1];         /* output it went to */
 static uint8_t rec_uk[VP_N + 1];
 static uint64_t rec_tag[VP_N + 1];
 static uint8_t rec_val[VP_N + 1];
 static int g_cut_size[VP_N + 1];       /* builder reached the size limit after this add */
-/* per output file; slot = input position at which it was opened */
+/* per output; slot = input position at which it was opened (concrete there) */
 static int f_opened[VP_N + 1];
 static uint64_t f_number[VP_N + 1];
-static int f_created[VP_N + 1];
-static int f_nadds[VP_N + 1];
-static uint8_t f_first_uk[VP_N + 1], f_last_uk[VP_N + 1];
-static uint64_t f_first_tag[VP_N + 1], f_last_tag[VP_N + 1];
-static int f_err[VP_N + 1];            /* builder latched an error during an add */
-static int f_fin[VP_N + 1];            /* 0 no, 1 finished ok, 2 finish failed, 3 abandoned */
-static int f_sync[VP_N + 1];           /* 0 no, 1 ok, 2 failed */
-static int f_close[VP_N + 1];
-static int f_verify[VP_N + 1];
-static int f_destroyed[VP_N + 1];
+static uint64_t fsz[VP_N + 1];         /* final size the builder will report (symbolic constant) */
 static int f_installed[VP_N + 1];
-static uint64_t f_size[VP_N + 1];
-static int g_cur = -1;                 /* slot of the output being generated */
+/* the output being generated: one at a time, scalars only */
+static int g_cur = -1;                 /* its slot */
+static int c_created = 0;              /* file exists */
+static int c_nadds = 0;
+static int c_err = 0;                  /* builder latched an error during an add */
+static int c_fin = 0;                  /* 0 no, 1 finished ok, 2 finish failed, 3 abandoned */
+static int c_sync = 0;                 /* 0 no, 1 ok, 2 failed */
+static int c_close = 0;
+static int c_verify = 0;
+static int c_destroyed = 0;
 static int g_outputs = 0;
-static uint64_t g_size = 0;            /* what ldb_tablegen_size says */
+static uint64_t g_size = 0;            /* what ldb_tablegen_size says while adding */
+static int64_t g_written = 0;          /* sum of the sizes reported for finished / abandoned outputs */
 static struct ldb_wfile_s wf;
 static struct ldb_tablegen_s tb;
 static uint64_t g_num0 = 0;            /* next_file_number before the call */
@@ -164,7 +164,10 @@ static int64_t gh_micros, gh_read, gh_written;
 static int gh_bg_error;
 static uint64_t gh_next_file;
 static int g_locks = 0;
-static int g_shut_seen = 0;
+/* which failure paths were taken (witnesses) */
+static int w_fin = 0, w_sync = 0, w_close = 0, w_verify = 0, w_create = 0, w_abandon = 0;
+
+#define VP_CUR_COMPLETE (c_created && c_nadds > 0 && c_fin == 1 && c_sync == 1 && c_close == 1 && c_verify == 1 && c_destroyed)
 
 static void
 note_err(int rc) {
@@ -433,11 +436,9 @@ vp_in_status(const void *p) {
   if (c->kind == 0) {
     rc = in_status;
   } else {
-    int k;
     rc = vp_fault();
-    for (k = 0; k < VP_N; k++)
-      if (k == g_cur)
-        f_verify[k] = rc == LDB_OK ? 1 : 2;
+    c_verify = rc == LDB_OK ? 1 : 2;
+    if (rc != LDB_OK) w_verify = 1;
   }
   note_err(rc);
   return rc;
@@ -460,8 +461,7 @@ ldb_now_usec(void) {
 const char *
 ldb_versions_summary(const ldb_versions_t *v, char *scratch) {
   (void)v;
-  scratch[0] = 0;
-  return scratch;
+  return scratch;     /* only handed to ldb_log */
 }
 
 ldb_iter_t *
@@ -528,54 +528,57 @@ ldb_versions_new_file_number(ldb_versions_t *v) {
   VP_ASSERT(v == &vs, "numbers come from the version set");
   VP_ASSERT(vp_mutex_held, "C13.c file numbers are allocated under the mutex");
   VP_ASSERT(pos >= 0 && pos < VP_N, "an output is opened while an input entry is being handled");
+  VP_ASSERT(g_first_err == LDB_OK, "C02.g no further output is opened after an error");
+  VP_ASSERT(g_cur < 0 || VP_CUR_COMPLETE,
+            "C02.g the previous output is finished, synced, closed, re-opened and released before the next is opened");
+  VP_ASSERT(!tb.live && !wf.open, "no builder / file is live when the next output is opened");
   for (k = 0; k < VP_N; k++) {
-    if (k == g_cur)
-      VP_ASSERT(f_destroyed[k] || !f_created[k], "the previous output file is finished and released before the next is opened");
     if (k == pos) {
       VP_ASSERT(!f_opened[k], "at most one output opened per input entry");
       f_opened[k] = 1;
       f_number[k] = v->next_file_number;
     }
   }
-  VP_ASSERT(!tb.live && !wf.open, "no builder / file is live when the next output is opened");
   g_cur = pos;
+  c_created = 0; c_nadds = 0; c_err = 0; c_fin = 0; c_sync = 0; c_close = 0; c_verify = 0; c_destroyed = 0;
   g_outputs++;
   return v->next_file_number++;
 }
 
+/* The name is not spelled out (a write into the 1 KiB path buffer costs the
+   solver a copy of the buffer): the stub remembers which buffer got which
+   number, ldb_truncfile_create checks that it is handed that buffer. */
+static const char *g_fname_buf = NULL;
+static uint64_t g_fname_num = 0;
+
 int
 ldb_table_filename(char *buf, size_t size, const char *dbname, uint64_t num) {
-  int i;
   VP_ASSERT(dbname == db.dbname && size >= 16, "table file named inside the database directory");
-  buf[0] = 'T';
-  for (i = 0; i < 8; i++)
-    buf[1 + i] = (char)((num >> (8 * i)) & 0xff);
-  buf[9] = 0;
+  g_fname_buf = buf;
+  g_fname_num = num;
   return 1;
 }
 
 int
 ldb_truncfile_create(const char *name, ldb_wfile_t **file) {
-  uint64_t num = 0;
-  int i, k, rc;
+  uint64_t num = g_fname_num;
+  int k, rc;
   VP_ASSERT(!vp_mutex_held, "output file created with the mutex released");
-  VP_ASSERT(name[0] == 'T', "an output is a table file");
-  for (i = 7; i >= 0; i--)
-    num = (num << 8) | (uint64_t)(uint8_t)name[1 + i];
+  VP_ASSERT(name != NULL && name == g_fname_buf, "the file created is the table file just named");
   VP_ASSERT(pend_has(num), "C13.c output number is in pending_outputs before the file is created");
   VP_ASSERT(num >= g_num0 && num > g_last_number, "C13.c output numbers are fresh and increasing");
   g_last_number = num;
-  VP_ASSERT(g_cur >= 0, "vp-model: file created for an opened output");
+  VP_ASSERT(g_cur >= 0 && !c_created, "vp-model: file created for an opened output");
   for (k = 0; k < VP_N; k++)
     if (k == g_cur)
-      VP_ASSERT(f_opened[k] && f_number[k] == num && !f_created[k], "the file created carries the number of the output just registered");
+      VP_ASSERT(f_opened[k] && f_number[k] == num, "the file created carries the number of the output just registered");
   rc = vp_fault();
   note_err(rc);
-  if (rc != LDB_OK)
+  if (rc != LDB_OK) {
+    w_create = 1;
     return rc;
-  for (k = 0; k < VP_N; k++)
-    if (k == g_cur)
-      f_created[k] = 1;
+  }
+  c_created = 1;
   wf.open = 1;
   *file = &wf;
   return LDB_OK;
@@ -592,14 +595,18 @@ ldb_tablegen_create(const ldb_dbopt_t *options, ldb_wfile_t *file) {
 
 void
 ldb_tablegen_add(ldb_tablegen_t *t, const ldb_slice_t *key, const ldb_slice_t *value) {
-  int pos = cur_pos(), i, k;
+  int pos = cur_pos(), i;
   uint64_t tag = 0;
   VP_ASSERT(t == &tb && tb.live, "add to the live builder");
   VP_ASSERT(!vp_mutex_held, "table built with the mutex released");
+  VP_ASSERT(c_created && c_fin == 0, "add only to a created, unfinished output");
+  VP_ASSERT(c_nadds > 0 || pos == g_cur, "an output is opened for the entry that is added first");
   check_is_current_key(key, pos);
   VP_ASSERT(value->size == 1, "value handed down whole");
   for (i = 7; i >= 0; i--)
     tag = (tag << 8) | key->data[1 + i];
+  g_size = vp_u64();
+  VP_ASSUME(g_size < (UINT64_C(1) << 40));
   for (i = 0; i < VP_N; i++) {
     if (i == pos) {
       VP_ASSERT(value->data[0] == in_val[i][0], "the value handed down is the input's current value");
@@ -609,132 +616,94 @@ ldb_tablegen_add(ldb_tablegen_t *t, const ldb_slice_t *key, const ldb_slice_t *v
       rec_uk[i] = key->data[0];
       rec_tag[i] = tag;
       rec_val[i] = value->data[0];
-    }
-  }
-  g_size = vp_u64();
-  VP_ASSUME(g_size < (UINT64_C(1) << 40));
-  for (i = 0; i < VP_N; i++)
-    if (i == pos)
       g_cut_size[i] = g_size >= comp.max_output_file_size;
-  for (k = 0; k < VP_N; k++)
-    if (k == g_cur)
-      f_size[k] = g_size;
-  for (k = 0; k < VP_N; k++) {
-    if (k == g_cur) {
-      VP_ASSERT(f_created[k] && f_fin[k] == 0, "add only to a created, unfinished output");
-      if (f_nadds[k] == 0) {
-        f_first_uk[k] = key->data[0];
-        f_first_tag[k] = tag;
-      }
-      f_last_uk[k] = key->data[0];
-      f_last_tag[k] = tag;
-      f_nadds[k]++;
-#if VP_FAULTS
-      if (vp_bool())
-        f_err[k] = 1;     /* the builder latches a write error; reported by finish() */
-#endif
     }
   }
+  c_nadds++;
+#if VP_FAULTS
+  if (vp_bool())
+    c_err = 1;            /* the builder latches a write error; reported by finish() */
+#endif
 }
 
 uint64_t
 ldb_tablegen_entries(const ldb_tablegen_t *t) {
-  int k;
-  uint64_t n = 0;
   VP_ASSERT(t == &tb && tb.live, "entries of the live builder");
-  for (k = 0; k < VP_N; k++)
-    if (k == g_cur)
-      n = (uint64_t)f_nadds[k];
-  return n;
+  return (uint64_t)c_nadds;
 }
 
 uint64_t
 ldb_tablegen_size(const ldb_tablegen_t *t) {
+  uint64_t r = g_size;
+  int k;
   VP_ASSERT(t == &tb && tb.live, "size of the live builder");
-  return g_size;
+  if (c_fin == 1) {
+    for (k = 0; k < VP_N; k++)
+      if (k == g_cur)
+        r = fsz[k];
+  }
+  if (c_fin != 0)
+    g_written += (int64_t)r;   /* asked once per output, after finish() / abandon() */
+  return r;
 }
 
 int
 ldb_tablegen_finish(ldb_tablegen_t *t) {
-  int k, rc = LDB_OK;
+  int rc;
   VP_ASSERT(t == &tb && tb.live, "finish the live builder");
   VP_ASSERT(!vp_mutex_held, "table finished with the mutex released");
-  for (k = 0; k < VP_N; k++) {
-    if (k == g_cur) {
-      VP_ASSERT(f_fin[k] == 0 && f_nadds[k] > 0, "finish once, on a non-empty output");
-      rc = f_err[k] ? LDB_IOERR : vp_fault();
-      f_fin[k] = rc == LDB_OK ? 1 : 2;
-    }
-  }
-  g_size = vp_u64();
-  VP_ASSUME(g_size < (UINT64_C(1) << 40));
-  for (k = 0; k < VP_N; k++)
-    if (k == g_cur)
-      f_size[k] = g_size;
+  VP_ASSERT(c_fin == 0 && c_nadds > 0, "finish once, on a non-empty output");
+  rc = c_err ? LDB_IOERR : vp_fault();
+  c_fin = rc == LDB_OK ? 1 : 2;
+  if (rc != LDB_OK) w_fin = 1;
   note_err(rc);
   return rc;
 }
 
 void
 ldb_tablegen_abandon(ldb_tablegen_t *t) {
-  int k;
   VP_ASSERT(t == &tb && tb.live, "abandon the live builder");
-  for (k = 0; k < VP_N; k++) {
-    if (k == g_cur) {
-      VP_ASSERT(f_fin[k] == 0, "abandon an unfinished builder");
-      f_fin[k] = 3;
-    }
-  }
+  VP_ASSERT(c_fin == 0, "abandon an unfinished builder");
+  c_fin = 3;
+  w_abandon = 1;
 }
 
 void
 ldb_tablegen_destroy(ldb_tablegen_t *t) {
-  int k;
   VP_ASSERT(t == &tb && tb.live, "destroy the live builder");
-  for (k = 0; k < VP_N; k++)
-    if (k == g_cur)
-      VP_ASSERT(f_fin[k] != 0, "builder destroyed only after finish() or abandon()");
+  VP_ASSERT(c_fin != 0, "builder destroyed only after finish() or abandon()");
   tb.live = 0;
 }
 
 int
 ldb_wfile_sync(ldb_wfile_t *f) {
-  int k, rc = vp_fault();
+  int rc = vp_fault();
   VP_ASSERT(f == &wf && wf.open, "sync of the output file");
   VP_ASSERT(!vp_mutex_held, "output synced with the mutex released");
-  for (k = 0; k < VP_N; k++) {
-    if (k == g_cur) {
-      VP_ASSERT(f_fin[k] == 1 && f_sync[k] == 0, "C02.g sync only after a successful finish()");
-      f_sync[k] = rc == LDB_OK ? 1 : 2;
-    }
-  }
+  VP_ASSERT(c_fin == 1 && c_sync == 0, "C02.g sync only after a successful finish()");
+  c_sync = rc == LDB_OK ? 1 : 2;
+  if (rc != LDB_OK) w_sync = 1;
   note_err(rc);
   return rc;
 }
 
 int
 ldb_wfile_close(ldb_wfile_t *f) {
-  int k, rc = vp_fault();
+  int rc = vp_fault();
   VP_ASSERT(f == &wf && wf.open, "close of the output file");
   VP_ASSERT(!vp_mutex_held, "output closed with the mutex released");
-  for (k = 0; k < VP_N; k++) {
-    if (k == g_cur) {
-      VP_ASSERT(f_sync[k] == 1 && f_close[k] == 0, "C02.g close only after a successful sync");
-      f_close[k] = rc == LDB_OK ? 1 : 2;
-    }
-  }
+  VP_ASSERT(c_sync == 1 && c_close == 0, "C02.g close only after a successful sync");
+  c_close = rc == LDB_OK ? 1 : 2;
+  if (rc != LDB_OK) w_close = 1;
   note_err(rc);
   return rc;
 }
 
 void
 ldb_wfile_destroy(ldb_wfile_t *f) {
-  int k;
   VP_ASSERT(f == &wf && wf.open, "release of the output file");
   wf.open = 0;
-  for (k = 0; k < VP_N; k++)
-    if (k == g_cur)
-      f_destroyed[k] = 1;
+  c_destroyed = 1;
 }
 
 ldb_iter_t *
@@ -744,10 +713,10 @@ ldb_tables_iterate(ldb_tables_t *cache, const ldb_readopt_t *options, uint64_t f
   int k;
   VP_ASSERT(cache == &tables_obj && options != NULL && tableptr == NULL, "verification re-open through the table cache");
   VP_ASSERT(!vp_mutex_held, "verification re-open with the mutex released");
+  VP_ASSERT(c_close == 1 && c_verify == 0 && c_destroyed, "the output is re-opened only after it was closed");
   for (k = 0; k < VP_N; k++)
     if (k == g_cur)
-      VP_ASSERT(f_close[k] == 1 && f_number[k] == file_number && f_size[k] == file_size && f_verify[k] == 0,
-                "the output is re-opened only after it was closed, by its number and final size");
+      VP_ASSERT(f_number[k] == file_number && fsz[k] == file_size, "the output is re-opened by its number and final size");
   c = (vp_cur_t *)ldb_malloc(sizeof(vp_cur_t));
   c->kind = 1;
   c->pos = -1;
@@ -781,14 +750,23 @@ ldb_edit_add_file(ldb_edit_t *edit, int level, uint64_t number, uint64_t file_si
   g_addfile_n++;
   for (k = 0; k < VP_N; k++) {
     if (f_opened[k] && f_number[k] == number) {
+      uint8_t luk = 0;
+      uint64_t lt = 0;
       hit++;
       VP_ASSERT(!f_installed[k], "an output is reported once");
       f_installed[k] = 1;
-      VP_ASSERT(f_created[k] && f_nadds[k] > 0 && f_fin[k] == 1 && f_sync[k] == 1 && f_close[k] == 1 && f_verify[k] == 1 && f_destroyed[k],
-                "C02.g an installed output was created, filled, finished, synced, closed and re-opened successfully, in that order");
-      VP_ASSERT(smallest->data[0] == f_first_uk[k] && stag == f_first_tag[k], "C14.c recorded smallest == first key added to the output");
-      VP_ASSERT(largest->data[0] == f_last_uk[k] && ltag == f_last_tag[k], "C14.c recorded largest == last key added to the output");
-      VP_ASSERT(file_size == f_size[k], "recorded file size == the builder's final size");
+      /* the output opened at entry k holds entry k first ... */
+      VP_ASSERT(rec_kept[k] && rec_slot[k] == k, "vp-model: an output starts with the entry it was opened for");
+      VP_ASSERT(smallest->data[0] == rec_uk[k] && stag == rec_tag[k], "C14.c recorded smallest == first key added to the output");
+      /* ... and the last entry written to it last */
+      for (i = k; i < VP_N; i++) {
+        if (rec_kept[i] && rec_slot[i] == k) {
+          luk = rec_uk[i];
+          lt = rec_tag[i];
+        }
+      }
+      VP_ASSERT(largest->data[0] == luk && ltag == lt, "C14.c recorded largest == last key added to the output");
+      VP_ASSERT(file_size == fsz[k], "recorded file size == the builder's final size");
     }
   }
   VP_ASSERT(hit == 1, "the reported number is the number of exactly one output of this compaction");
@@ -801,6 +779,8 @@ ldb_versions_apply(ldb_versions_t *v, ldb_edit_t *edit, ldb_mutex_t *mu) {
   VP_ASSERT(vp_mutex_held, "install under the mutex");
   VP_ASSERT(g_apply_n == 0 && g_deletions_n == 1, "one install, after the input deletions were added");
   VP_ASSERT(g_first_err == LDB_OK && !db.shutting_down, "C02.g nothing is installed after an error or a shutdown");
+  VP_ASSERT(g_cur < 0 || VP_CUR_COMPLETE,
+            "C02.g an installed output was created, filled, finished, synced, closed and re-opened successfully, in that order");
   for (k = 0; k < VP_N; k++)
     VP_ASSERT(f_opened[k] == f_installed[k], "every output of the compaction is reported, nothing else");
   VP_ASSERT(g_addfile_n == g_outputs, "as many files reported as outputs opened");
@@ -951,6 +931,11 @@ harness(void) {
   VP_ASSUME(imm_at >= 0 && imm_at < VP_N);
 #endif
 
+  for (k = 0; k < VP_N; k++) {
+    fsz[k] = vp_u64();
+    VP_ASSUME(fsz[k] < (UINT64_C(1) << 40));
+  }
+
   state = ldb_cstate_create(&comp);
   vp_mutex_held = 1;     /* ldb_background_compaction holds the mutex */
   ghost_save();
@@ -961,7 +946,6 @@ harness(void) {
   /* ---- post-conditions ---- */
   VP_ASSERT(vp_mutex_held, "mutex held on return");
   VP_ASSERT(vp_unlocks >= 1, "the heavy loop ran with the mutex released");
-  g_shut_seen = db.shutting_down;
   VP_ASSERT(state->smallest_snapshot == smallest, "C06.b smallest_snapshot == oldest held snapshot, else last_sequence, as read under the mutex");
   VP_ASSERT(g_in_created == 1 && g_in_cleared == 1 && g_vf_live == 0, "iterators created by the compaction are destroyed");
 
@@ -981,9 +965,7 @@ harness(void) {
   }
 
   /* statistics: charged to level + 1, once, under the mutex (ghost_check) */
-  for (k = 0; k < VP_N; k++)
-    if (f_opened[k] && f_fin[k] != 0)
-      written += (int64_t)f_size[k];
+  written = g_written;
   for (i = 0; i < LDB_NUM_LEVELS; i++) {
     if (i == level + 1) {
       VP_ASSERT(db.stats[i].bytes_written == written, "bytes written == sum of the outputs' sizes, charged to level + 1");
@@ -1066,27 +1048,16 @@ harness(void) {
     if (g_outputs == 0) VP_WITNESS("everything-dropped-no-output");
   }
 #if VP_FAULTS
-  {
-    int w_fin = 0, w_sync = 0, w_close = 0, w_verify = 0, w_create = 0, w_abandon = 0;
-    for (k = 0; k < VP_N; k++) {
-      if (f_fin[k] == 2) w_fin = 1;
-      if (f_fin[k] == 3) w_abandon = 1;
-      if (f_sync[k] == 2) w_sync = 1;
-      if (f_close[k] == 2) w_close = 1;
-      if (f_verify[k] == 2) w_verify = 1;
-      if (f_opened[k] && !f_created[k]) w_create = 1;
-    }
 #if VP_N >= 1
-    if (w_fin) VP_WITNESS("builder-finish-failed");
-    if (w_abandon) VP_WITNESS("output-abandoned");
-    if (w_sync) VP_WITNESS("sync-failed");
-    if (w_close) VP_WITNESS("close-failed");
-    if (w_verify) VP_WITNESS("verify-failed");
-    if (w_create) VP_WITNESS("create-failed");
+  if (w_fin) VP_WITNESS("builder-finish-failed");
+  if (w_abandon) VP_WITNESS("output-abandoned");
+  if (w_sync) VP_WITNESS("sync-failed");
+  if (w_close) VP_WITNESS("close-failed");
+  if (w_verify) VP_WITNESS("verify-failed");
+  if (w_create) VP_WITNESS("create-failed");
 #endif
-  }
   if (rc != LDB_OK && in_status != LDB_OK && rc == in_status) VP_WITNESS("iterator-error");
-  if (rc != LDB_OK && g_shut_seen && g_first_err == LDB_OK) VP_WITNESS("shutdown");
+  if (rc != LDB_OK && db.shutting_down && g_first_err == LDB_OK) VP_WITNESS("shutdown");
   if (g_apply_n == 1 && g_apply_rc != LDB_OK) VP_WITNESS("install-failed");
 #endif
 #if VP_IMM
